@@ -6,7 +6,8 @@ import json, os, subprocess, sys, shutil
 from concurrent.futures import ThreadPoolExecutor
 from pathlib import Path
 V = Path("/verif")
-OWN5 = {"t-evasive4": ["C19"], "t-evasive1": ["C06"], "t-evasive2": ["C06"], "t-evasive3": ["C06"],
+OWN5 = {"k-evasive1": ["C05"], "k-evasive2": ["C08"], "l-evasive1": ["C19"], "l-evasive2": ["C19"], "l-evasive3": ["C15"], "l-evasive4": ["C12"], "l-evasive5": ["C20"], "l-evasive6": ["C09", "C14"], "l-evasive7": ["C15"], "l-evasive8": ["C18"],
+        "t-evasive4": ["C19"], "t-evasive1": ["C06"], "t-evasive2": ["C06"], "t-evasive3": ["C06"],
         "i-evasive1": ["C07"], "i-evasive2": ["C06"], "i-evasive3": ["C02"], "j-evasive1": ["C20"], "j-evasive2": ["C20"], "j-evasive3": ["C20"], "j-evasive4": ["C09"],
         "j-evasive5": ["C13"], "j-evasive6": ["C20"], "j-evasive7": ["C19"], "j-evasive8": ["C13"], "j-evasive9": ["C20"], "j-evasive10": ["C15"], "j-evasive11": ["C11"]}
 OWN_OVERRIDE = {"r2-C08-1": ["C16"]}       # BOCD aliasing its configuration's model at construction: an isolation defect, reported by C16 (DESIGN 11.7)
